@@ -8,6 +8,8 @@ import (
 
 	"github.com/conduitio/conduit-commons/opencdc"
 	"github.com/conduitio/conduit/pkg/foundation/cerrors"
+	"github.com/conduitio/conduit/pkg/foundation/metrics"
+	"github.com/conduitio/conduit/pkg/foundation/log"
 )
 
 func init() {
@@ -16,6 +18,7 @@ func init() {
 	verifRegister("VerifV1Proc", VerifV1Proc)
 	verifRegister("VerifV1FanoutOrder", VerifV1FanoutOrder)
 	verifRegister("VerifV1BatchedAcks", VerifV1BatchedAcks)
+	verifRegister("VerifV1NackOrder", VerifV1NackOrder)
 }
 
 func sDLQChoice() (int, int) {
@@ -63,6 +66,70 @@ func VerifV1Pipeline() {
 }
 
 var errVerifNone = cerrors.New("none")
+
+// VerifV1NackOrder (C04): the real SourceAckerNode with the real DLQHandlerNode
+// behind it (unlimited window), K messages registered in read order, then
+// completed from K different goroutines - message `failed` is rejected (and
+// dead-lettered), the others are accepted - in every order and under every
+// schedule within the delay bound. The source sees the acknowledgments in read
+// order, each exactly once (oracle in the fake source).
+func VerifV1NackOrder() {
+	K := verifParam("K", 2)
+	w := &sWorld{K: K, filtered: map[int]bool{}, procErr: map[int]bool{}}
+	w.src = &sSource{w: w, stopCh: make(chan struct{}), served: make(chan struct{}), ackYield: true}
+	w.dlq = &sDLQ{w: w, written: map[int]int{}}
+	dlqNode := &DLQHandlerNode{Name: "dlq", Handler: w.dlq, WindowSize: 0, WindowNackThreshold: 0,
+		Timer: sTimer{}, Histogram: metrics.NewRecordBytesHistogram(sHist{})}
+	dlqNode.Add(1) // as the lifecycle service does per source
+	in := make(chan *Message)
+	feeder := &sFeeder{out: in}
+	acker := &SourceAckerNode{Name: "src-acker", Source: w.src, DLQHandlerNode: dlqNode}
+	acker.Sub(feeder.Pub())
+	out := acker.Pub()
+	SetLogger(dlqNode, log.Nop())
+	SetLogger(acker, log.Nop())
+	ctx, cancel := context.WithCancel(context.Background())
+	defer cancel()
+	var nodes sync.WaitGroup
+	for _, n := range []Node{dlqNode, acker} {
+		nodes.Add(1)
+		go func(n Node) { defer nodes.Done(); _ = n.Run(ctx) }(n)
+	}
+	failed := verifConcrete(verifChoice("failed", K))
+	msgs := make([]*Message, K)
+	for i := 0; i < K; i++ {
+		m := &Message{Ctx: ctx, Record: opencdc.Record{Position: sPos(i), Operation: opencdc.OperationCreate, Metadata: opencdc.Metadata{}}}
+		in <- m
+		msgs[i] = <-out // registered by the acker, now "in flight" downstream
+	}
+	var done sync.WaitGroup
+	for i := K - 1; i >= 0; i-- { // later records complete first unless the schedule says otherwise
+		done.Add(1)
+		go func(i int) {
+			defer done.Done()
+			if i == failed {
+				w.mu.Lock()
+				w.procErr[i] = true
+				w.mu.Unlock()
+				_ = msgs[i].Nack(cerrors.New("verif: rejected"), "downstream")
+			} else {
+				w.mu.Lock()
+				w.ackedDownstream(i)
+				w.mu.Unlock()
+				_ = msgs[i].Ack()
+			}
+		}(i)
+	}
+	done.Wait()
+	close(in)
+	nodes.Wait()
+	w.mu.Lock()
+	verifAssert(len(w.src.acked) == K, "c04-record-left-unacknowledged")
+	verifAssert(w.dlq.written[failed] == 1, "c07-rejected-record-not-dead-lettered-once")
+	w.mu.Unlock()
+	verifObserve("acked", K)
+	verifCover("clean")
+}
 
 // VerifV1BatchedAcks (C09): a destination whose ack responses cover several
 // records at once (every record written so far), whatever the acker node has
